@@ -113,9 +113,12 @@ def check_forwarding(inst, V, ctx, spath, feature):
                     ctx.ok('forwarding', inst); continue
             if t[0] != 'call':
                 bad('%s returns %s instead of forwarding to self.inner.%s(..)' % (name, show(t), name)); ok = False; continue
-            if name == 'last' and t[1] == T_DEI + '::next_back' and self_field(V, t[2][0], True) == 0:
-                # last() == next_back() on a double-ended iterator
-                ctx.ok('forwarding', inst); continue
+            if name == 'last' and t[1] == T_DEI + '::next_back':
+                # last() == next_back() on a double-ended iterator (self is taken by value: `last(mut self)` borrows its own field)
+                a0 = V.strip(t[2][0])
+                f0 = V.strip(a0[1]) if a0[0] == 'ref' else None
+                if self_field(V, t[2][0], True) == 0 or (f0 is not None and f0[0] == 'field' and f0[2] == 0 and V.strip(f0[1]) == ('arg', 0)):
+                    ctx.ok('forwarding', inst); continue
             if t[1] != want:
                 bad('%s forwards to %s instead of %s of the inner iterator' % (name, '::'.join((t[1] or '?').split('::')[-2:]), '::'.join(want.split('::')[-2:]))); ok = False; continue
             if self_field(V, t[2][0], byref) != 0:
